@@ -2260,6 +2260,176 @@ def r157(P, rep):
     ag.flush(fline)
 
 
+# =============================================================================================
+# R15.9 link operands keep their command-line order
+# =============================================================================================
+# A link set is resolved by ld strictly from left to right: an archive (named by path or found through -l) contributes
+# only the members that define a symbol which is undefined AT THAT POINT, and options such as --whole-archive /
+# --start-group / -Bstatic act on the operands that FOLLOW them.  So the driver must hand every position-sensitive
+# word of its own command line -- inputs (the object made from a source input stands in its place), -l<lib>,
+# the words of -Wl,<a>,<b> and of -Xlinker <a> -- to ld in command-line order relative to each other, all of them after
+# the start files and before the default libraries / end files.  Decided on concrete command lines through the real
+# main() + parse_args() + run_linker(); only the argument vector of the ld process is observed, nothing about how the
+# driver gets there.
+_LK_CLASSES = ('xlinker-operand', 'linker-option-operand', 'library-operand', 'archive-operand', 'shared-object-operand', 'object-operand', 'compiled-input')
+
+
+def _lk_src(n):
+    return ('in', n, [('obj-of', n)], 'compiled-input')
+
+
+def _lk_obj(n):
+    return ('in', n, [('str', n)], 'archive-operand' if n.endswith('.a') else 'shared-object-operand' if n.endswith('.so') else 'object-operand')
+
+
+def _lk_lib(w):
+    return ('in', w, [('str', w)], 'library-operand')
+
+
+def _lk_wl(*ws):
+    return ('in', '-Wl,' + ','.join(ws), [('str', w) for w in ws], 'linker-option-operand')
+
+
+def _lk_xl(w):
+    return ('in2', ['-Xlinker', w], [('str', w)], 'xlinker-operand')
+
+
+def _lk_opt(*ws):
+    return ('opt', list(ws), [], None)
+
+
+_LINK_LINES = [
+    ('object-then-library', [_lk_obj('o1.o'), _lk_lib('-lfoo')]),
+    ('library-first', [_lk_lib('-lfoo'), _lk_obj('o1.o'), _lk_lib('-lbar')]),
+    ('libraries-between-inputs', [_lk_src('u1.c'), _lk_lib('-lfoo'), _lk_obj('o1.o'), _lk_lib('-lbar'), _lk_obj('lib.d/libz.a'), _lk_src('sub.d/u2.c'), _lk_lib('-lm')]),
+    ('repeated-library', [_lk_obj('o1.o'), _lk_lib('-lfoo'), _lk_obj('o2.o'), _lk_lib('-lfoo')]),
+    ('linker-options-around-archive', [_lk_obj('o1.o'), _lk_wl('--push-state', '--whole-archive'), _lk_obj('libz.a'), _lk_wl('--pop-state'), _lk_src('u1.c'), _lk_lib('-lm')]),
+    ('assembler-input', [_lk_src('s1.s'), _lk_lib('-lfoo'), _lk_src('u1.c'), _lk_obj('o1.o')]),
+    ('options-between-operands', [_lk_obj('o1.o'), _lk_opt('-s'), _lk_lib('-lfoo'), _lk_opt('-Llib.d'), _lk_obj('o2.o'), _lk_opt('-o', 'out.bin'), _lk_lib('-lbar')]),
+    ('static', [_lk_opt('-static'), _lk_src('u1.c'), _lk_opt('-L', 'lib.d'), _lk_lib('-lfoo'), _lk_obj('o1.o'), _lk_wl('-z', 'now'), _lk_lib('-lm'), _lk_opt('-o', 'out.bin')]),
+    ('shared', [_lk_opt('-shared', '-fPIC'), _lk_src('u1.c'), _lk_lib('-lfoo'), _lk_obj('lib.d/libq.so'), _lk_wl('-soname', 'libx.so.1'), _lk_opt('-o', 'libx.so')]),
+    ('xlinker-group', [_lk_src('u1.c'), _lk_xl('--start-group'), _lk_lib('-lfoo'), _lk_lib('-lbar'), _lk_xl('--end-group')]),
+]
+_LK_START = ('crt1.o', 'crti.o', 'crtbegin.o', 'crtbeginS.o', 'crtbeginT.o', 'Scrt1.o')
+_LK_END_FILES = ('crtend.o', 'crtendS.o', 'crtn.o')
+_LK_DEFAULT_LIBS = ('-lc', '-lgcc', '-lgcc_eh', '-lgcc_s')
+
+
+def _lk_show(t):
+    if t[0] == 'str':
+        return t[1]
+    if t[0] == 'obj-of':
+        return '<object of %s>' % t[1]
+    if t[0] == 'asm-of':
+        return '<compiler output of %s>' % t[1]
+    if t[0] == 'file':
+        return '<dir>/' + t[1] if not t[1].startswith('-') else t[1]
+    return '<%s>' % ' '.join(str(x) for x in t)
+
+
+def r159(P, rep):
+    from ..lib_c15 import LinkDriver
+    rep.rule('R15.9', 'link sets: every position-sensitive word of the command line (inputs - a source input is represented by the object made from it -, -l<lib>, the words of -Wl,.. and -Xlinker ..) '
+             'reaches the ld command line exactly as often as it was written and in command-line order relative to the others, after the start files and before the default libraries and end files '
+             '(ld resolves archives and applies positional options strictly left to right)', floor=2 * len(_LINK_LINES) - 2)
+    mu = P.unit(MU)
+    drv = LinkDriver(P, mu)
+    ag = Agg(rep, 'R15.9', MU, 'main')
+    fline = mu.fn('main').line
+    for label, elems in _LINK_LINES:
+        K = 'link-order/%s:' % label
+        words = ['chibicc']
+        expect = []
+        for kind, w, toks, cls in elems:
+            words += w if isinstance(w, list) else [w]
+            expect += [(t, cls) for t in toks]
+        shown = ' '.join(words)
+        try:
+            ps = drv.run(words)
+        except AnalysisBroken as e:
+            ag.undecided(K + 'interpretation', '`%s`: %s' % (shown, e), fline)
+            continue
+        if len(ps) != 1 or ps[0][0].decisions:
+            ag.undecided(K + 'state-not-concrete', '`%s`: the path through parse_args / main / run_linker depends on values the model leaves open (%d paths)' % (shown, len(ps)), fline)
+            continue
+        ctx, out = ps[0]
+        if out[0] != 'ret':
+            if out[1] == '__assert_fail':
+                ag.undecided(K + 'assertion', '`%s` ends in a failed assertion' % shown, out[3])
+            else:
+                ag.note(K + 'command-line-rejected', False, '`%s` is a legitimate link command line, but the driver ends in %s%r before any link' % (shown, out[1], tuple(a for a in out[2][:2] if isinstance(a, str))),
+                        out[3], {'argv': words})
+            continue
+        items, line, err = drv.link_command(ctx)
+        if err == 'unreadable':
+            ag.undecided(K + 'argument-vector', '`%s`: the argument vector handed to the process launcher is not a list the analysis can read' % shown, line or fline)
+            continue
+        if err is not None:
+            n = int(err.split(':')[1])
+            ag.note(K + ('no-link-step' if n == 0 else 'several-link-steps'), False, '`%s` returns success after starting %d ld processes: the link set is not linked %s' % (shown, n, 'at all' if n == 0 else 'in one step'),
+                    fline, {'argv': words})
+            continue
+        facts = {'argv': words, 'ld': [_lk_show(t) for t in items]}
+        bad = [t for t in items if t[0] == '?']
+        if bad:
+            ag.undecided(K + 'argument-not-concrete', '`%s`: an argument of the ld command is not a concrete word: %s' % (shown, bad[0][1]), line)
+            continue
+        if not items or items[-1] != ('end',):
+            ag.undecided(K + 'argument-vector', '`%s`: the ld argument vector is not NULL-terminated in the model' % shown, line)
+            continue
+        want = [t for t, c in expect]
+        cls_of = {}
+        for t, c in expect:
+            cls_of.setdefault(t, c)
+        wset = set(want)
+        got = [(i, t) for i, t in enumerate(items) if t in wset or t[0] in ('obj-of', 'asm-of', 'tmp')]
+        gseq = [t for i, t in got]
+        # ---- multiplicity and order -------------------------------------------------------------------------------------
+        verdict = None
+        for t in want:
+            if gseq.count(t) < want.count(t):
+                verdict = (cls_of[t] + '-dropped', '%s (written %d time(s)) reaches ld %d time(s): an operand of the link set is lost' % (_lk_show(t), want.count(t), gseq.count(t)))
+                break
+            if gseq.count(t) > want.count(t):
+                verdict = (cls_of[t] + '-repeated', '%s (written %d time(s)) reaches ld %d times' % (_lk_show(t), want.count(t), gseq.count(t)))
+                break
+        if verdict is None:
+            extra = [t for t in gseq if t not in wset]
+            if extra:
+                verdict = ('unrequested-temporary', 'ld is given %s, which stands for no operand of the command line' % _lk_show(extra[0]))
+        if verdict is None and gseq != want:
+            moved = None
+            for c in _LK_CLASSES:
+                if [t for t in gseq if cls_of[t] != c] == [t for t in want if cls_of[t] != c] and [t for t in gseq if cls_of[t] == c] == [t for t in want if cls_of[t] == c]:
+                    moved = c
+                    break
+            verdict = ((moved or 'operands') + '-out-of-order',
+                       'the operands reach ld as [%s], the command line has them as [%s]: %s; ld scans archives and applies positional options left to right, so a library placed before '
+                       'the object that needs it contributes nothing (undefined references) and an option such as --whole-archive / --start-group no longer encloses its operands'
+                       % (' '.join(_lk_show(t) for t in gseq), ' '.join(_lk_show(t) for t in want),
+                          ('every ' + moved.replace('-', ' ') + ' has lost its position relative to the other operands') if moved else 'the relative order is not kept'))
+        if verdict is None:
+            ag.note(K + 'operands-in-command-line-order', True, '', line, facts)
+        else:
+            ag.note(K + verdict[0], False, '`%s`: %s' % (shown, verdict[1]), line, facts)
+        # ---- operands lie between the start files and the default libraries / end files ---------------------------------
+        starts = [i for i, t in enumerate(items) if t[0] == 'file' and t[1] in _LK_START]
+        ends = [i for i, t in enumerate(items) if (t[0] == 'file' and t[1] in _LK_END_FILES) or (t[0] == 'str' and t[1] in _LK_DEFAULT_LIBS)]
+        if not starts or not ends:
+            ag.undecided(K + 'start-and-end-files', '`%s`: no start file / no default library or end file recognised in the ld command' % shown, line)
+            continue
+        early = [t for i, t in got if i < max(starts) and t in wset]
+        late = [t for i, t in got if i > min(ends) and t in wset]
+        if early:
+            ag.note(K + cls_of[early[0]] + '-before-start-files', False, '`%s`: %s precedes the start files (crt1.o/crti.o/crtbegin) on the ld command line' % (shown, _lk_show(early[0])), line, facts)
+        elif late:
+            ag.note(K + cls_of[late[0]] + '-after-default-libraries', False, '`%s`: %s follows the default libraries / end files on the ld command line: what it needs from libc / libgcc is no longer resolved '
+                    '(static archives) and constructors/destructors frames are closed before it' % (shown, _lk_show(late[0])), line, facts)
+        else:
+            ag.note(K + 'operands-between-start-files-and-default-libraries', True, '', line, facts)
+    ag.flush(fline)
+
+
 def _initial_global(it, P, name):
     """value of a global at program start: its initialiser, else zero (static storage duration)"""
     found = False
@@ -2298,7 +2468,9 @@ def run(P, rep, tier):
                        'and of -fcommon / -fPIC (emitted directives are parsed and the address left in %rax is evaluated symbolically); function(), primary(), '
                        'global_variable(), declaration(), postfix() (compound literals, in the parser-context states gvar_initializer() is evaluated to establish on first and on nested entry), gvar_initializer() for every combination of declaration attributes (a parser-built state outside the emit_data table is run through emit_data; function(): also for every state an earlier declaration can have left, '
                        'judging that a redeclaration keeps the linkage of the first declaration, and find_func on scope chains of depth 1-3 for every flag combination of the bound function); mark_live on all reference graphs over three functions; '
-                       'scan_globals on all lists of up to three file-scope objects over two names; parse_args / run_linker on concrete option vectors. '
+                       'scan_globals on all lists of up to three file-scope objects over two names; parse_args / run_linker on concrete option vectors; '
+                       'main() + parse_args() + run_linker() on concrete link command lines (objects, archives, shared objects, C and assembler inputs, -l, -Wl, -Xlinker, interleaved options; default / -static / -shared), '
+                       'observing only the argument vector of the ld process: every position-sensitive operand arrives once per mention, in command-line order, between start files and default libraries (R15.9). '
                        'Not decided: link results, run-time equivalence of the configurations, initialiser bytes (C05), prologue/epilogue (C06), the one redeclaration case the Obj flags '
                        'cannot tell apart (`inline f` vs `static inline f` followed by a plain / extern declaration: C11 inline-definition merging), initial-exec TLS for extern thread-locals of shared objects.')
     rep.assumptions += ['states never built by the parser are not judged (tentative with initialiser / thread-local / extern; local thread-local; non-static function that is not live)',
@@ -2306,6 +2478,8 @@ def run(P, rep, tier):
                         'gas semantics: a symbol is local unless .globl; .comm is global unless preceded by .local; .L names stay out of the symbol table',
                         'psABI 3.1.2 array alignment, ELF TLS ABI (general-dynamic 16-byte pattern, local-exec), crt start-file order of the GNU toolchain',
                         'lists are analysed with the object under test followed by one plain definition (continuation), graphs with three functions (bounded-exhaustive)',
+                        'R15.9: ld resolves archives and applies positional options left to right (GNU ld); the cc convention for the link line: inputs, -l, -Wl, and -Xlinker words in command-line order; '
+                        'stage functions run_cc1(argc, argv, input, output) / assemble(input, output) and the temporary-name creator are cut points, libc string functions incl. strtok behave as ISO C specifies',
                         'parser context of static initialisers: integer file-scope objects of parse.c; nesting of gvar_initializer() evaluated to depth %d; between the calls it makes, '
                         'only gvar_initializer() and its private helpers change that context while an initialiser is parsed (every other writer makes the rule undecided)' % MAX_CONTEXT_LEVELS]
     cg = CG(P)
@@ -2317,7 +2491,7 @@ def run(P, rep, tier):
         return envs['pe']
     steps = [('R15.1', lambda: r151(cg, rep)), ('R15.2', lambda: r152(cg, rep)), ('R15.4', lambda: r154(cg, rep)),
              ('R15.3', lambda: r153(penv(), rep)), ('R15.5', lambda: r155(penv(), rep)), ('R15.6', lambda: r156(penv(), rep)),
-             ('R15.7', lambda: r157(P, rep))]
+             ('R15.7', lambda: r157(P, rep)), ('R15.9', lambda: r159(P, rep))]
     for rule, f in steps:
         try:
             f()
